@@ -19,6 +19,91 @@ use tower::{Layer, Service};
 
 pub struct C18;
 
+// ------------------------------------------------------------------------------------------
+// free-running pass: real OS threads, not explored — the only way to reach races inside one poll
+// (dashmap and tokio's semaphore cannot be put under a controlled scheduler). Sampled; sound:
+// the gauge inside the wrapped service is exact.
+// ------------------------------------------------------------------------------------------
+
+#[derive(Clone)]
+struct Counting {
+    inside: Arc<std::sync::atomic::AtomicI64>,
+    max: Arc<std::sync::atomic::AtomicI64>,
+    entered: Arc<std::sync::atomic::AtomicI64>,
+}
+
+impl Service<Request<Bytes>> for Counting {
+    type Response = Response<Bytes>;
+    type Error = Status;
+    type Future = BoxFuture<'static, Result<Response<Bytes>, Status>>;
+    fn poll_ready(&mut self, _: &mut Context<'_>) -> Poll<Result<(), Status>> {
+        Poll::Ready(Ok(()))
+    }
+    fn call(&mut self, _req: Request<Bytes>) -> Self::Future {
+        let c = self.clone();
+        Box::pin(async move {
+            let now = c.inside.fetch_add(1, Ordering::SeqCst) + 1;
+            c.max.fetch_max(now, Ordering::SeqCst);
+            c.entered.fetch_add(1, Ordering::SeqCst);
+            // stay inside long enough for every racer to have reached the limiter
+            std::thread::sleep(std::time::Duration::from_millis(3));
+            c.inside.fetch_sub(1, Ordering::SeqCst);
+            Ok(Response::new(Bytes::new()))
+        })
+    }
+}
+
+fn free_running(unit: &Value, out: &mut UnitResult) {
+    let limit = unit["limit"].as_u64().unwrap() as usize;
+    let block = unit["block"].as_bool().unwrap();
+    let racers = unit["racers"].as_u64().unwrap() as usize;
+    let trials = unit["trials"].as_u64().unwrap() as usize;
+    let mode = if block { WaitMode::Block } else { WaitMode::ReturnError };
+    // one layer for the whole unit: every trial uses a peer the limiter has never seen
+    let layer = InflightLimitLayer::new(limit, mode);
+    for trial in 0..trials {
+        crate::pool::crumb(|| format!("free-running in-flight limit trial {trial}"));
+        out.evaluations += 1;
+        let c = Counting { inside: Default::default(), max: Default::default(), entered: Default::default() };
+        let mut id = [0u8; 32];
+        id[..8].copy_from_slice(&(trial as u64 + 1).to_le_bytes());
+        let peer = PeerId(id);
+        let gate = Arc::new(std::sync::atomic::AtomicUsize::new(0));
+        let mut hs = vec![];
+        for _ in 0..racers {
+            let mut svc = layer.layer(c.clone());
+            let gate = gate.clone();
+            hs.push(std::thread::spawn(move || {
+                gate.fetch_add(1, Ordering::SeqCst);
+                while gate.load(Ordering::SeqCst) < racers {
+                    std::hint::spin_loop();
+                }
+                let req = Request::new(Bytes::new()).with_extension(peer);
+                futures::executor::block_on(svc.call(req)).map(|_| ()).map_err(|e| e.status())
+            }));
+        }
+        let results: Vec<Result<(), StatusCode>> = hs.into_iter().map(|h| h.join().unwrap()).collect();
+        let max = c.max.load(Ordering::SeqCst);
+        let entered = c.entered.load(Ordering::SeqCst);
+        let ok = results.iter().filter(|r| r.is_ok()).count() as i64;
+        let replay = json!({"unit": unit, "trial": trial});
+        if max > limit as i64 {
+            out.violation("limit-exceeded", format!("[free-running, limit {limit}, {}] {max} requests of one new peer were inside the wrapped service at the same instant ({racers} simultaneous first requests on {racers} threads)", if block { "Block" } else { "ReturnError" }), replay.clone());
+        }
+        if entered != ok {
+            out.violation("admission-accounting", format!("[free-running] {entered} requests entered the wrapped service but {ok} callers got its answer"), replay.clone());
+        }
+        if block && ok != racers as i64 {
+            out.violation("block-mode-refuses", format!("[free-running, Block] {ok} of {racers} requests were served: {results:?}"), replay.clone());
+        }
+        if results.iter().any(|r| matches!(r, Err(s) if *s != StatusCode::TooManyRequests)) {
+            out.violation("unexpected-error", format!("[free-running] {results:?}"), replay);
+        }
+        out.class(format!("free-running {} served={}", if block { "block" } else { "error" }, ok.min(3)));
+    }
+    out.count("free_running_trials", trials as u64);
+}
+
 #[derive(Clone, Copy, Debug, PartialEq, Eq, PartialOrd, Ord, Hash)]
 enum Ev {
     Arrive(u8),
@@ -416,7 +501,7 @@ impl Check for C18 {
             property: "C18",
             level: "model_checking",
             rule: "explicit-state search: events {arrive(P|Q) = create the real call future through one of 3 service instances derived from one layer and poll it once, poll(k) of a woken future, complete(k, ok|err) of a request inside the wrapped service, cancel(k) = drop the future at any stage}; limit in {1,2}, mode in {Block, ReturnError}, 3 ways of deriving the service instances; every sequence up to the depth, deduplicated on (stage, wake flag and service instance of every live request in arrival order, per-peer gauge); invariant in every state, drain-and-refill at every leaf; distinct = distinct request outcomes".into(),
-            assumptions: vec!["hand-driven executor: only woken futures are polled (a spurious poll is not modelled)".into(), "tokio's Semaphore and dashmap are executed, not explored internally".into()],
+            assumptions: vec!["hand-driven executor: only woken futures are polled (a spurious poll is not modelled)".into(), "tokio's Semaphore and dashmap are executed, not explored internally; a supplementary FREE-RUNNING pass (4 OS threads issuing the first requests of a never-seen peer at the same instant, 600 | 6000 trials, exact gauge) samples the thread interleavings inside one poll — counted under free_running_trials, not part of the exhaustive claim".into()],
             exhaustive: true,
         }
     }
@@ -432,15 +517,30 @@ impl Check for C18 {
                 }
             }
         }
+        // free-running (sampled) pass on real threads
+        for block in [false, true] {
+            for limit in [1u64, 2] {
+                u.push(json!({"kind":"free-running","limit":limit,"block":block,"racers":4,"trials":tier.pick(150, 1500)}));
+            }
+        }
         u
     }
 
     fn run_unit(&self, _tier: Tier, unit: &Value, out: &mut UnitResult) {
+        if unit["kind"] == "free-running" {
+            free_running(unit, out);
+            return;
+        }
         search(unit, out);
     }
 
     fn replay(&self, replay: &Value) -> String {
         let unit = &replay["unit"];
+        if unit["kind"] == "free-running" {
+            let mut out = UnitResult::default();
+            free_running(unit, &mut out);
+            return format!("free-running unit {unit} re-run (thread timing is not reproducible): {:?}", out.violations.iter().map(|v| (&v.key, &v.message)).collect::<Vec<_>>());
+        }
         let seq: Vec<Ev> = replay["events"].as_array().unwrap().iter().map(parse_ev).collect();
         let (mut w, r) = replay_seq(unit["limit"].as_u64().unwrap() as usize, unit["block"].as_bool().unwrap(), unit["strategy"].as_u64().unwrap(), &seq);
         let leaf = if r.is_ok() { w.drain_and_refill() } else { Ok(()) };
